@@ -15,13 +15,13 @@ CONSTS = {"MaxLen": 1, "Fault": "none", "EmitCases": False}
 def spell(kind, cls, d, rng):
     if kind == "H":
         w = HALF_WORD[d]
-        opts = {"SYM": [d + "½"], "SLASH": [d + "/2"], "BARE": [d + "2"],
+        opts = {"SYM": [d + "½"], "SLASH": [d + "/2"], "BARE": [d + "2", d + "2", d + " 2"],
                 "FRAC": [d + " 1/2", d + "1/2", d + " / 2", d + " /2"],
                 "WORD": [w + " Half"], "WORDONE": [w + " One Half"],
                 "WORDFRAC": [w + " 1/2"] + (["No. 1/2"] if d == "N" else []) + (["So. 1/2"] if d == "S" else [])}[cls]
     else:
         ws = Q_WORD[d]
-        opts = {"SYM": [d + "¼"], "SLASH": [d + "/4"], "BARE": [d + "4"],
+        opts = {"SYM": [d + "¼"], "SLASH": [d + "/4"], "BARE": [d + "4", d + "4", d + " 4"],
                 "FRAC": [d + " 1/4", d + "1/4", d + " / 4"],
                 "WORD": [x + " Quarter" for x in ws], "WORDONE": [x + " One Quarter" for x in ws],
                 "WORDFRAC": [ws[0] + " 1/4"], "BAREQ": [d]}[cls]
@@ -127,12 +127,17 @@ def run(ctx):
         if sum(1 for x in c["w"] if x["kind"] == "Q") > 4 or sum(1 for x in c["w"] if x["kind"] == "H") > 4:
             continue
         cases.append(mk_case("e%d" % i, c["w"], c["js"], c["clean"], c["recognised"], ctx.rng))
+        if len(c["w"]) <= 2:            # short chains twice more: other spellings of the same classes, other directions
+            # (the spaced short spellings 'N 2', 'N /2', 'E 1/2' have the most variants: more renderings of those)
+            spaced = len(c["w"]) == 2 and all(x["class"] in ("BARE", "FRAC") for x in c["w"])
+            for rep in range(1, 13 if spaced else 3):
+                cases.append(mk_case("e%d_%d" % (i, rep), c["w"], c["js"], c["clean"], c["recognised"], ctx.rng))
     if not cases:
         raise core.MachineryFailure("AliquotLex emitted no cases")
     ctx.exhaustive = False
     check(ctx, cases)
     ctx.rule = ("written chains = every (kind, spelling class) sequence up to 2 components x joiners x clean_qq of "
-                "spec/AliquotLex.tla (all) and %d%% of the 3-component ones, each rendered with a random concrete spelling of "
+                "spec/AliquotLex.tla (all) and %d%% of the 3-component ones, each rendered with a random concrete spelling (chains of 1-2 components three times) of "
                 "its class (letter case varied) and random directions (distinct, or - where every component must be read as an aliquot - in 40%% of the cases drawn with replacement); compared with the canonical symbol text under "
                 "5 configurations; non-trivial = distinct (text, clean_qq)" % int(keep3 * 100))
     ctx.assumptions += ["spelling tables of harness/drivers/c07.py (DESIGN Appendix A)",
